@@ -64,10 +64,19 @@ WidthEquation(s) == LET u == UsedWidth(s) IN u[1] + s.bl + s.pl + u[2] + s.pr + 
 Margins == {-3, 0, 5}
 \* mh: min-height (on leaves): the used height is at least mh (10.7), and a box with a non-zero min-height does not collapse
 \* through (8.3.1)
-Leaf == {[mt |-> a, mb |-> b, bt |-> c, bb |-> d, h |-> e, mh |-> m, kids |-> <<>>] : a \in Margins, b \in Margins, c \in {0, 1}, d \in {0, 1}, e \in {Auto, 0, 4}, m \in {0, 3}}
-WithKids(K) == {[mt |-> a, mb |-> b, bt |-> c, bb |-> d, h |-> e, mh |-> 0, kids |-> k] : a \in Margins, b \in Margins, c \in {0, 1}, d \in {0, 1}, e \in {Auto, 0, 4}, k \in K}
-\* forests of at most two boxes: two siblings, or a parent with one child, or a single box
-Forests2 == {<<x>> : x \in Leaf} \cup {<<x, y>> : x \in Leaf, y \in Leaf} \cup {<<p>> : p \in WithKids({<<c>> : c \in Leaf})}
+\* mxp: max-height as a percentage (0 = none): it refers to the height of the containing block and is treated as none when
+\* that height is not specified explicitly (10.7); the used height is max(min(height, max-height), min-height)
+Leaf == {[mt |-> a, mb |-> b, bt |-> c, bb |-> d, h |-> e, mh |-> m[1], mxp |-> m[2], kids |-> <<>>] :
+            a \in Margins, b \in Margins, c \in {0, 1}, d \in {0, 1}, e \in {Auto, 0, 4}, m \in {<<0, 0>>, <<3, 0>>, <<0, 50>>}}
+PlainLeaf == {x \in Leaf : x.mh = 0 /\ x.mxp = 0}
+\* (the leaves with a min- or max-height of the exhaustive family: no top border, two heights)
+VarLeaf == {x \in Leaf : (x.mh # 0 \/ x.mxp # 0) /\ x.bt = 0 /\ x.h # 0}
+WithKids(K) == {[mt |-> a, mb |-> b, bt |-> c, bb |-> d, h |-> e, mh |-> 0, mxp |-> 0, kids |-> k] : a \in Margins, b \in Margins, c \in {0, 1}, d \in {0, 1}, e \in {Auto, 0, 4}, k \in K}
+\* forests of at most two boxes: two siblings, or a parent with one child, or a single box; at most one of the two has a min- / max-height
+\* (an operator with a dummy parameter: TLC evaluates constant definitions eagerly, this one only when Init needs it)
+Forests2(dummy) == {<<x>> : x \in PlainLeaf \cup VarLeaf} \cup {<<x, y>> : x \in PlainLeaf, y \in PlainLeaf}
+            \cup {<<x, y>> : x \in VarLeaf, y \in PlainLeaf} \cup {<<x, y>> : x \in PlainLeaf, y \in VarLeaf}
+            \cup {<<p>> : p \in WithKids({<<c>> : c \in PlainLeaf \cup VarLeaf})}
 
 None == -1000
 PosOf(S) == {m \in S : m > 0}
@@ -79,18 +88,23 @@ Coll(P) == LET S == {P[j] : j \in 1..Len(P)} IN MaxS(PosOf(S)) + MinS(NegOf(S))
 
 \* V(b, y, P): y = last solid edge above, P = pending adjoining margins.
 \* result [obs: per box in pre-order [yb, bh, vis], yA, PA, solidY]
-RECURSIVE V(_, _, _), Kids(_, _, _, _)
-Kids(ks, y, P, acc) ==
+\* ph: the explicit height of the containing block (Auto when it depends on the content)
+RECURSIVE V(_, _, _, _), Kids(_, _, _, _, _)
+Kids(ks, y, P, acc, ph) ==
   IF ks = <<>> THEN acc
-  ELSE LET r == V(Head(ks), acc.yA, acc.PA) IN
+  ELSE LET r == V(Head(ks), acc.yA, acc.PA, ph) IN
        Kids(Tail(ks), y, P, [obs |-> acc.obs \o r.obs, yA |-> r.yA, PA |-> r.PA,
-                             solidY |-> IF acc.solidY # None THEN acc.solidY ELSE r.solidY])
-V(b, y, P) ==
+                             solidY |-> IF acc.solidY # None THEN acc.solidY ELSE r.solidY], ph)
+V(b, y, P, ph) ==
   LET P1 == Append(P, b.mt)
       fixedH == b.h # Auto
-      ch == Max(IF fixedH THEN b.h ELSE 0, b.mh) IN
+      own == IF fixedH THEN b.h ELSE Auto
+      maxh == IF b.mxp = 0 \/ ph = Auto THEN 1000000 ELSE (ph * b.mxp) \div 100
+      base == IF fixedH THEN b.h ELSE 0
+      ch == Max(IF base > maxh THEN maxh ELSE base, b.mh) IN
   IF b.kids = <<>> THEN
-    IF b.bt = 0 /\ b.bb = 0 /\ ch = 0
+    \* (8.3.1 speaks of the 'height' PROPERTY being 0 or auto: a height clamped to 0 by max-height does not collapse through)
+    IF b.bt = 0 /\ b.bb = 0 /\ ch = 0 /\ b.h \in {Auto, 0}
     THEN \* the margins collapse through the box: its position is not observable
          [obs |-> <<[yb |-> 0, bh |-> 0, vis |-> FALSE]>>, yA |-> y, PA |-> Append(P1, b.mb), solidY |-> None]
     ELSE LET yb == y + Coll(P1)  bh == b.bt + ch + b.bb IN
@@ -98,13 +112,13 @@ V(b, y, P) ==
   ELSE IF b.bt > 0 THEN
     \* a top border separates the box's top margin from its children's
     LET yb == y + Coll(P1)
-        k == Kids(b.kids, yb + b.bt, <<>>, [obs |-> <<>>, yA |-> yb + b.bt, PA |-> <<>>, solidY |-> None])
+        k == Kids(b.kids, yb + b.bt, <<>>, [obs |-> <<>>, yA |-> yb + b.bt, PA |-> <<>>, solidY |-> None], own)
         cb == Max(yb + b.bt, IF fixedH THEN yb + b.bt + b.h ELSE IF b.bb > 0 THEN k.yA + Coll(k.PA) ELSE k.yA)
         sealed == fixedH \/ b.bb > 0 IN
     [obs |-> <<[yb |-> yb, bh |-> cb + b.bb - yb, vis |-> TRUE]>> \o k.obs, yA |-> cb + b.bb,
      PA |-> IF sealed THEN <<b.mb>> ELSE Append(k.PA, b.mb), solidY |-> yb]
   ELSE
-    LET k == Kids(b.kids, y, P1, [obs |-> <<>>, yA |-> y, PA |-> P1, solidY |-> None])
+    LET k == Kids(b.kids, y, P1, [obs |-> <<>>, yA |-> y, PA |-> P1, solidY |-> None], own)
         sealed == fixedH \/ b.bb > 0 IN
     IF k.solidY # None THEN
       \* the top margin class is resolved at the first solid edge inside: that is where the box starts
@@ -118,7 +132,7 @@ V(b, y, P) ==
       [obs |-> <<[yb |-> yb, bh |-> bh, vis |-> TRUE]>> \o k.obs, yA |-> yb + bh, PA |-> <<b.mb>>, solidY |-> yb]
     ELSE [obs |-> <<[yb |-> 0, bh |-> 0, vis |-> FALSE]>> \o k.obs, yA |-> y, PA |-> Append(k.PA, b.mb), solidY |-> None]
 
-LayoutForest(f) == Kids(f, 0, <<>>, [obs |-> <<>>, yA |-> 0, PA |-> <<>>, solidY |-> None])
+LayoutForest(f) == Kids(f, 0, <<>>, [obs |-> <<>>, yA |-> 0, PA |-> <<>>, solidY |-> None], Auto)
 \* (the forest sits in a container with a top border: nothing collapses with the outside)
 
 \* incremental construction for `tlc -simulate` (forests of MaxBoxes boxes, depth <= 3)
@@ -126,11 +140,11 @@ RECURSIVE Count(_)
 Count(f) == IF f = <<>> THEN 0 ELSE 1 + Count(Head(f).kids) + Count(Tail(f))
 
 ---------------------------------------------------------------------------
-Init == /\ scn \in (IF Mode = "width" THEN WidthScn ELSE Forests2) /\ phase = "done"
+Init == /\ scn \in (IF Mode = "width" THEN WidthScn ELSE Forests2(0)) /\ phase = "done"
 \* simulation: grow a forest box by box
 InitBuild == /\ scn = <<>> /\ phase = "build"
 AddSibling == /\ phase = "build" /\ Mode = "vertical" /\ Count(scn) < MaxBoxes
-              /\ \E x \in Leaf : scn' = Append(scn, x) /\ UNCHANGED phase
+              /\ scn' = Append(scn, RandomElement(Leaf)) /\ UNCHANGED phase      \* (simulation only: one random leaf)
 \* wrap the last top-level box into a new parent
 WrapLast == /\ phase = "build" /\ Mode = "vertical" /\ scn # <<>> /\ Count(scn) < MaxBoxes
             /\ \E p \in WithKids({<<scn[Len(scn)]>>}) : scn' = [scn EXCEPT ![Len(scn)] = p] /\ UNCHANGED phase
